@@ -10,12 +10,12 @@ PROP = dict(
           "thorough), every (prefix, next-frame) pair of a 40/96-granule stream and every interleaving of 2 (and 3) instances with 3 frames each is "
           "executed on the implementation; outputs must concatenate to the one-call output (same length, |delta| <= 1e-9 max|y|) and instances "
           "must reproduce their solo runs bit for bit; for decimating processors frames of a non-documented length interleaved with valid frames must be rejected and leave the object unchanged (mode reject). Exhaustive within these bounds.",
-    note="frame contents come from five fixed letters (dense LCG, impulse train, step, click, burst+quiet); a boundary defect that needs special sample values "
+    note="frame contents come from six fixed letters (dense LCG, impulse train, step, click, burst+quiet, loud with short dips); a boundary defect that needs special sample values "
          "beyond these is not excluded. Private state is hashed only to count canonical states (evidence), never to raise an alarm.",
     rule="case = one framing history (list of frame sizes) of one configuration and letter, replayed on a fresh object; non-trivial = more than "
          "one frame; states = distinct (configuration, letter, prefix length, private-state hash) after each frame; transitions = process() calls "
          "executed; traces_validated_against_impl = histories executed",
-    bounds=dict(quick="comp: k = 11 (1024 framings) x 5 letters x all configurations; pair: 40 granules, all ~1600 (p,f,tail) histories, light "
+    bounds=dict(quick="comp: k = 11 (1024 framings) x 6 letters x all configurations; pair: 40 granules, all ~1600 (p,f,tail) histories, light "
                       "configurations; iso: 2 instances x 20 interleavings all configurations, 3 instances x 1680 for every 2nd; copy: 9 histories with a copy-constructed / copy-assigned / move-constructed processor (source destroyed, left alone, fed other data, interleaved) for every copyable configuration, accepted if ALL calls follow value semantics or ALL follow handle semantics, both computed on the implementation; long: a stream of > 70 000 samples under 5 framings (boundary at 65 535/65 536, one frame longer than 65 536, uniform ~1000, alternating 1/64 granules) for the first configuration of every processor kind",
                 thorough="comp: k = 16 (32768 framings); pair: 128 granules (~16000 histories) for all configurations; iso: 3 instances for all; long: all configurations"),
     deadline=dict(quick=150, thorough=3000),
